@@ -10,6 +10,7 @@ struct ProfileCfg {
         int suite_kind = -1;           // -1 any, 0 cipher-only, 1 hash-only, 2 chained, 3 aead
         bool allow_invalid = false;    // F2
         bool allow_misuse = false;     // F11
+        bool sgl_jobs = false;         // scatter-gather jobs (valid and invalid) among the ordinary submissions
         bool allow_reinit = false;     // F3
         bool allow_reattach = false;   // F4
         bool allow_burst = true;
